@@ -1,7 +1,7 @@
 ---------------------------- MODULE ParseSessionMC ----------------------------
 EXTENDS ParseSession, Json
 CONSTANT Emit, SameObjOnlyFrom   \* call sequences longer than this use a single object
-AllInputs == {"elev", "veh3", "fallback3", "dates", "nyct", "plain", "conflict", "static-a", "static-b", "static-missingcols"}
+AllInputs == {"elev", "veh3", "fallback3", "dates", "nyct", "plain", "conflict", "static-a", "static-b", "static-missingcols", "static-cycle"}
 AllObjs == {"noext-utc", "noext-ny", "nycttrips", "alerts-complex", "alerts-none"}
 Shaped == Len(calls) <= SameObjOnlyFrom \/ \A a, b \in DOMAIN calls : calls[a].obj = calls[b].obj
 NextShaped == Next /\ (Len(calls') <= SameObjOnlyFrom \/ \A a, b \in DOMAIN calls' : calls'[a].obj = calls'[b].obj)
